@@ -241,6 +241,7 @@ func init() {
 			func(c *Ctx) { c.ruleFreshDecode("R-FRESHDEC", c.scopePkg("atp")); c.R.Floor("R-FRESHDEC", 2) },
 			func(c *Ctx) { c.ruleDecodeExit("R-DECODEEXIT", c.scopePkg("atp")); c.R.Floor("R-DECODEEXIT", 2) },
 			func(c *Ctx) { c.ruleChan("R-CHAN") },
+			func(c *Ctx) { c.ruleSigChan("R-SIGCHAN") },
 			func(c *Ctx) { c.ruleRecover("R-RECOVER") },
 			func(c *Ctx) { c.ruleExactlyOne("R-EXACTLYONE") },
 			func(c *Ctx) { c.ruleWG("R-WG"); c.R.Floor("R-WG", 8) },
@@ -249,8 +250,8 @@ func init() {
 	})
 	register(&PropSpec{
 		ID: "C08",
-		Explanation: "Decided: R-WORKDONE - success results only from work-done messages with an output ID; R-CLIENTPANIC - no explicit panic reachable from the client's methods beyond two accepted invariants. R-DELIVER - every decode/unmarshal error in the client reaches the affected waiter(s) (result store + wake-up) or the caller's return value, and " +
-			"every decoded runtime message is handed to a handler; R-MUSTPASS - every exit of the read loop has failed all waiters or found none, and cleared the running " +
+		Explanation: "Decided: R-STICKY - every failed read from the stream (and every failure of the handshake after the hello message) is remembered in the client's error field, which is never cleared, and a run is registered / a reply is read directly only where that field was found nil under the right mutex: later Execute calls fail instead of reading from the middle of a damaged stream; R-SIGCHAN - a close of a caller's signal channel cannot hit a send in flight (goroutine confinement, the state mutex, or the hand-over marker), goes with the removal of the table entry, and follows every end of a run (result stored, or pending entry removed without one). R-WORKDONE - success results only from work-done messages with an output ID and output data; R-CLIENTPANIC - no explicit panic reachable from the client's methods beyond two accepted invariants. R-DELIVER - every decode/unmarshal error in the client reaches the affected waiter(s) (result store + wake-up) or the caller's return value, " +
+			"every decoded runtime message is handed to a handler, and a decoded result is delivered where the pending table is known to hold its run or else fails all waiters; R-MUSTPASS - every exit of the read loop has failed all waiters or found none, and cleared the running " +
 			"flag in that critical section, so later Execute calls start a new reader (which fails again on a dead stream); R-WG(c) - Close cancels before it waits. " +
 			"R-STRICTDEC - every CBOR decoding call in the client's methods uses the client's strict DecMode (unknown fields are errors), never the package-level cbor.Unmarshal / NewDecoder; R-DECODEEXIT - as in C07. NOT decided: which corruptions the CBOR decoder reports as errors; timing.",
 		Assumptions: []string{"every decode call may fail at any time (the property's fault model)"},
@@ -260,6 +261,8 @@ func init() {
 			func(c *Ctx) { c.ruleDecodeExit("R-DECODEEXIT", c.scopePkg("atp")); c.R.Floor("R-DECODEEXIT", 2) },
 			func(c *Ctx) { c.ruleStrictDec("R-STRICTDEC"); c.R.Floor("R-STRICTDEC", 5) },
 			func(c *Ctx) { c.ruleDeliver("R-DELIVER") },
+			func(c *Ctx) { c.ruleSticky("R-STICKY") },
+			func(c *Ctx) { c.ruleSigChan("R-SIGCHAN") },
 			func(c *Ctx) { c.ruleMustPass("R-MUSTPASS") },
 			func(c *Ctx) { c.ruleAtomic("R-ATOMIC"); c.R.Floor("R-ATOMIC", 4) },
 			func(c *Ctx) { c.ruleWG("R-WG"); c.R.Floor("R-WG", 8) },
